@@ -48,22 +48,20 @@ pub fn universe(u: &Unit) -> Vec<Fact> {
     for &r in &u.input_rels {
         let d = &u.prog.rels[r];
         let cols = d.arity;
+        let doms: Vec<i32> = u.domains.get(&r).cloned().unwrap_or_else(|| vec![n; cols]);
         let mut t = vec![0; cols];
-        loop {
+        'outer: loop {
             let mut tt = t.clone();
             if let Some(ty) = &d.lat { tt[cols - 1] = vfn::code::mk(ty, t[cols - 1]); }
             out.push((r, tt));
             let mut i = cols;
             loop {
-                if i == 0 { break; }
+                if i == 0 { break 'outer; }
                 i -= 1;
                 t[i] += 1;
-                if t[i] < n { break; }
+                if t[i] < doms[i] { break; }
                 t[i] = 0;
-                if i == 0 { i = usize::MAX; break; }
             }
-            if i == usize::MAX { break; }
-            if cols == 0 { break; }
         }
     }
     out
@@ -110,7 +108,7 @@ pub struct Ctx<'a> {
     pub mode: String,
     pub thorough: bool,
     pub units: Vec<Unit>,
-    pub table: &'a [Entry],
+    pub table: &'a [&'a Entry],
     pub rep: Report,
 }
 
@@ -607,10 +605,14 @@ pub fn main(family: &str, tier: &str, shard: usize, nshards: usize, table: &[Ent
             (Some(ui), inp)
         }
     };
-    let mut cx = Ctx { family: family.into(), mode: mode.clone(), thorough, units, table, rep };
+    // --only-tag <prefix>: restrict to units whose tag starts with the prefix (one provider of the ds family)
+    let mut units = units;
+    if let Some(i) = args.iter().position(|a| a == "--only-tag") { let pre = args[i + 1].clone(); for u in units.iter_mut() { if !u.tag.starts_with(&pre) { u.variants.clear(); } } }
+    let table: Vec<&Entry> = table.iter().filter(|e| !units[e.unit].variants.is_empty()).collect();
+    let mut cx = Ctx { family: family.into(), mode: mode.clone(), thorough, units, table: &table, rep };
     if cx.rep.machinery_errors.is_empty() {
         match mode.as_str() {
-            "C01" | "C03" | "C04" => { let m = mode.clone(); mode_model(&mut cx, &m, only_unit, only_input) }
+            "C01" | "C03" | "C04" | "C10" | "C11" | "C12" => { let m = mode.clone(); mode_model(&mut cx, &m, only_unit, only_input) }
             "C05" => mode_c05(&mut cx, only_unit, only_input),
             "C14" => {
                 let case = replay.as_ref().map(|r| (only_input.clone().unwrap_or_default(), r.get("case").get("timeouts_ns").as_array().map(|a| a.iter().map(|x| x.as_u64().unwrap()).collect()).unwrap_or_default()));
